@@ -120,8 +120,14 @@ class Custom(Node):
         for k,v in vars(self).items():
             if isinstance(v,Node):
                 if not isinstance(v,Root):
+                    # stored under the attribute's name; the caller's
+                    # instance keeps its own name
+                    name = v.name
                     v.name = k
-                    attr_grp = v.to_h5(grp)
+                    try:
+                        attr_grp = v.to_h5(grp)
+                    finally:
+                        v.name = name
                     attr_grp.attrs['emd_group_type'] = 'custom_' + \
                         attr_grp.attrs['emd_group_type']
         return grp
